@@ -152,3 +152,38 @@ func HStableLiberal() {
 		vr.Assert("c12.fixpoint", vr.EqBytes(b2, b3))
 	}
 }
+
+// HStableForeignSA (C12): an SA payload of an independent encoder with Param(0) transforms of arbitrary
+// types - the library files the five it knows and drops the others - is stable under re-encoding: the
+// re-encoding decodes to an equal payload and encodes to itself.
+func HStableForeignSA() {
+	n := vr.Param(0)
+	p := &VRefProposal{Number: vr.U8(), Protocol: vr.U8()}
+	for i := 0; i < n; i++ {
+		p.Transforms = append(p.Transforms, VGenTransform(vr.U8(), vr.IntIn(0, 1)))
+	}
+	b := vRefSABody([]*VRefProposal{p}, false)
+	p1 := new(SecurityAssociation)
+	if err := p1.Unmarshal(b); err != nil {
+		vr.Assert("c12.foreign-sa.decode", false)
+		return
+	}
+	b2, err := p1.Marshal()
+	if err != nil {
+		vr.Cover("c12.foreign-sa.not-encodable") // e.g. nothing but dropped transforms: outside the property's premise
+		return
+	}
+	vr.Cover("c12.foreign-sa.reencoded")
+	p2 := new(SecurityAssociation)
+	err = p2.Unmarshal(b2)
+	vr.Assert("c12.redecode.ok", err == nil)
+	if err != nil {
+		return
+	}
+	vr.Assert("c12.equal", VEqPayload(p1, p2))
+	b3, err := p2.Marshal()
+	vr.Assert("c12.reencode.ok", err == nil)
+	if err == nil {
+		vr.Assert("c12.fixpoint", vr.EqBytes(b2, b3))
+	}
+}
